@@ -274,6 +274,18 @@ def _chunk(jobs):
         case = gqlmini.gen_case(sd, depth=rng.choice([2, 2, 3]), op=op)
         if sd < 0:
             case, op = targeted[(-sd - 1) % len(targeted)]
+        if op == "mutation" and (sd if sd >= 0 else -sd) % 5 < 2:
+            # the whole root selection inside one inline fragment or one named fragment: the operation has a single root
+            # *selection* and still several root *fields*, which execute serially
+            import copy
+            case = copy.deepcopy(case)
+            d = case["doc"]
+            if sd % 2:
+                d["sel"] = [{"k": "I", "on": rng.choice(["", "Mutation"]), "dirs": [], "sel": d["sel"]}]
+            else:
+                d["frags"] = {k: v for k, v in d["frags"].items() if k != "_"}
+                d["frags"]["Froot"] = {"on": "Mutation", "sel": d["sel"]}
+                d["sel"] = [{"k": "S", "name": "Froot", "dirs": []}]
         text = gqlmini.render_doc(case, op)
         try:
             if validate(gqlmini.schema(), parse(text)):
